@@ -2,7 +2,7 @@
 import json
 
 from common import hexs, BuildBroken
-from impl_link import run_rx, build_frame_bytes
+from impl_link import run_rx, build_frame_bytes, ref_crc8, ref_crc16
 
 
 # --------------------------------------------------------------------------- generators
@@ -53,9 +53,8 @@ def weird_header(rng, size=None, flags=None, good_crc8=True, ftype=6):
     """Checksum-valid (or not) 7-byte header with arbitrary size/flags, followed by nothing."""
     size = rng.randrange(0, 301) if size is None else size
     flags = rng.randrange(256) if flags is None else flags
-    from zigpy_zboss.checksum import CRC8
     h4 = size.to_bytes(2, "little") + bytes([ftype, flags])
-    c8 = int(CRC8(h4).digest())
+    c8 = ref_crc8(h4)
     if not good_crc8:
         c8 ^= rng.randrange(1, 256)
     return b"\xde\xad" + h4 + bytes([c8])
@@ -65,17 +64,31 @@ def short_body_frame(rng, flags=None, nbody=None):
     """Checksum-valid header whose body is too short for its kind but carries a VALID body checksum where
     one fits: a first fragment with 0..3 bytes after the CRC16 (no room for the 4-byte command header),
     bodies of 0 or 1 byte (no room for the CRC16), ACK headers with a length other than 5."""
-    from zigpy_zboss.checksum import CRC8, CRC16
     flags = rng.choice([0x40, 0xC0, 0x44, 0xC8, 0x00, 0x80, 0x01, 0x11]) if flags is None else flags
     nbody = rng.randrange(0, 7) if nbody is None else nbody
     if nbody >= 2:
         data = rand_bytes(rng, nbody - 2)
-        body = int(CRC16(data).digest()).to_bytes(2, "little") + data
+        body = ref_crc16(data).to_bytes(2, "little") + data
     else:
         body = rand_bytes(rng, nbody)
     size = 5 + len(body)
     h4 = size.to_bytes(2, "little") + bytes([6, flags])
-    return b"\xde\xad" + h4 + bytes([int(CRC8(h4).digest())]) + body
+    return b"\xde\xad" + h4 + bytes([ref_crc8(h4)]) + body
+
+
+def nosig_header(rng, size=None, keep=None):
+    """A frame whose start marker is damaged (so it is NOT a frame start) but whose length/type/flags/crc8 bytes are
+    self-consistent, cut short of its announced extent: nothing after it may be held back waiting for that extent."""
+    fr = bytearray(valid_frame(rng, kind=rng.choice(["whole", "first", "middle"]), maxlen=size or rng.choice([20, 120, 250])))
+    if rng.random() < 0.6:
+        i = rng.randrange(16)
+        fr[i // 8] ^= 1 << (i % 8)
+    else:
+        fr[0], fr[1] = rng.choice([(0xDE, 0xDE), (0xAD, 0xDE), (0x00, 0xAD), (rng.randrange(256), rng.randrange(256))])
+        if fr[0] == 0xDE and fr[1] == 0xAD:
+            fr[1] = 0xAE
+    keep = rng.randrange(7, max(8, len(fr) - 1)) if keep is None else keep
+    return bytes(fr[:keep])
 
 
 def corrupt(rng, fr):
@@ -113,7 +126,7 @@ def gen_pieces(rng, npieces=None, focus=None):
         elif r < 0.80:
             out.append(("badcrc8-long", weird_header(rng, size=rng.choice([300, 5000, 0x7FFF, 0xFFFF]), flags=0xC0, good_crc8=False)))
         elif r < 0.84:
-            out.append(("short-body-valid-crc", short_body_frame(rng)))
+            out.append(("short-body-valid-crc", short_body_frame(rng)) if rng.random() < 0.6 else ("damaged-marker-truncated", nosig_header(rng)))
         elif r < 0.93:
             sz = rng.randrange(0, 14) if rng.random() < 0.7 else rng.randrange(0, 301)
             tail = rand_bytes(rng, rng.randrange(0, 16))
